@@ -755,7 +755,8 @@ class Sinh(Transform):
     def _jacobian(self, x):
         nu, scale = self.params.values
         u = (x - nu) * scale
-        return scale / np.sqrt(1 + u * u)
+        # (hypot: u * u overflows beyond 1.3e154 and the ratio would be 0)
+        return scale / np.hypot(1., u)
 
     def params_sample(self, nsamples=500, minval=-7., maxval=0.):
         # Generate parameters samples in log space
